@@ -111,6 +111,13 @@ where
             return None;
         }
 
+        #[cfg(anydb_verif)]
+        rawdb::verif::io_access(
+            self._region_lock.id(),
+            self._region_lock.len(),
+            start_offset as usize,
+            total_bytes,
+        );
         let absolute_offset = self.region_start + start_offset;
         if self.file_position != absolute_offset {
             self.file_position = absolute_offset;
